@@ -5,6 +5,7 @@ package main
 // transcript the same script produces alone.  Built with -race by the C20 check.
 
 import (
+	"bufio"
 	"context"
 	"encoding/json"
 	"flag"
@@ -14,6 +15,7 @@ import (
 	"net/http"
 	"net/http/httptest"
 	"net/url"
+	"regexp"
 	"strings"
 	"sync"
 	"time"
@@ -46,6 +48,131 @@ type raceWorld struct {
 	cook *jarRW
 	mail *mailOut
 	h    http.Handler
+	sink *mailSink
+}
+
+// mailSink is where the shipped mailers deliver: an io.Writer for the LogMailer and a minimal SMTP
+// server for the SMTPMailer. Both read every byte they are handed (so the race detector sees a
+// buffer that is reused while in flight) and keep the messages for the cross-talk check.
+type mailSink struct {
+	mu   sync.Mutex
+	msgs []sunkMail
+	ln   net.Listener
+}
+
+type sunkMail struct {
+	via  string
+	rcpt string // SMTP envelope recipient ("" for the log mailer)
+	data string
+}
+
+func (m *mailSink) Write(b []byte) (int, error) {
+	cp := string(append([]byte(nil), b...))
+	m.mu.Lock()
+	m.msgs = append(m.msgs, sunkMail{via: "log", data: cp})
+	m.mu.Unlock()
+	return len(b), nil
+}
+
+func (m *mailSink) serve() string {
+	ln, err := net.Listen("tcp", "127.0.0.1:0")
+	if err != nil {
+		return "127.0.0.1:1"
+	}
+	m.ln = ln
+	go func() {
+		for {
+			c, err := ln.Accept()
+			if err != nil {
+				return
+			}
+			go m.session(c)
+		}
+	}()
+	return ln.Addr().String()
+}
+
+func (m *mailSink) session(c net.Conn) {
+	defer c.Close()
+	c.SetDeadline(time.Now().Add(10 * time.Second))
+	rd := bufio.NewReader(c)
+	say := func(s string) { io.WriteString(c, s+"\r\n") }
+	say("220 sink ESMTP")
+	rcpt := ""
+	for {
+		line, err := rd.ReadString('\n')
+		if err != nil {
+			return
+		}
+		up := strings.ToUpper(strings.TrimSpace(line))
+		switch {
+		case strings.HasPrefix(up, "EHLO"), strings.HasPrefix(up, "HELO"):
+			say("250 sink")
+		case strings.HasPrefix(up, "MAIL FROM"):
+			say("250 ok")
+		case strings.HasPrefix(up, "RCPT TO"):
+			r := strings.TrimSpace(line)[len("RCPT TO:"):]
+			rcpt = strings.Trim(strings.TrimSpace(r), "<>")
+			say("250 ok")
+		case up == "DATA":
+			say("354 go")
+			var sb strings.Builder
+			for {
+				l, err := rd.ReadString('\n')
+				if err != nil {
+					return
+				}
+				if l == ".\r\n" {
+					break
+				}
+				sb.WriteString(l)
+			}
+			m.mu.Lock()
+			m.msgs = append(m.msgs, sunkMail{via: "smtp", rcpt: rcpt, data: sb.String()})
+			m.mu.Unlock()
+			say("250 queued")
+		case up == "QUIT":
+			say("221 bye")
+			return
+		default:
+			say("250 ok")
+		}
+	}
+}
+
+var sunkTo = regexp.MustCompile(`(?m)^To: (.*?)\r?$`)
+var sunkTok = regexp.MustCompile(`(?:cnf|token)=([A-Za-z0-9_%-]+)`)
+
+// crosstalk: every delivered message names one recipient consistently (envelope, To header) and
+// carries only tokens that were issued to that recipient
+func (w *raceWorld) crosstalk() []string {
+	owner := map[string]string{}
+	w.mail.mu.Lock()
+	for _, m := range w.mail.mails {
+		if len(m.To) > 0 {
+			owner[mailToken(m.URL)] = m.To[0]
+		}
+	}
+	w.mail.mu.Unlock()
+	var bad []string
+	w.sink.mu.Lock()
+	defer w.sink.mu.Unlock()
+	for _, m := range w.sink.msgs {
+		to := ""
+		if x := sunkTo.FindStringSubmatch(m.data); x != nil {
+			to = strings.TrimSpace(x[1])
+		}
+		if m.via == "smtp" && to != m.rcpt {
+			bad = append(bad, fmt.Sprintf("smtp message for %s carries header To: %s", m.rcpt, to))
+		}
+		for _, t := range sunkTok.FindAllStringSubmatch(m.data, -1) {
+			tok, _ := url.QueryUnescape(t[1])
+			if o, ok := owner[tok]; !ok || o != to {
+				bad = append(bad, fmt.Sprintf("%s message to %s carries a token issued to %q", m.via, to, o))
+			}
+		}
+	}
+	return bad
 }
 
 func newRaceWorld() (*raceWorld, error) {
@@ -60,11 +187,9 @@ func newRaceWorld() (*raceWorld, error) {
 	defaults.SetCore(&ab.Config, false, false) // default router, error handler, responder, redirector, body reader
 	ab.Config.Core.Logger = defaults.NewLogger(io.Discard)
 	ab.Config.Core.ErrorHandler = defaults.NewErrorHandler(ab.Config.Core.Logger)
-	// a port that refuses connections
-	l, _ := net.Listen("tcp", "127.0.0.1:0")
-	addr := l.Addr().String()
-	l.Close()
-	ab.Config.Core.Mailer = teeMailer{cap: w.mail, more: []authboss.Mailer{defaults.NewLogMailer(io.Discard), defaults.NewSMTPMailer(addr, nil)}}
+	w.sink = &mailSink{}
+	addr := w.sink.serve()
+	ab.Config.Core.Mailer = teeMailer{cap: w.mail, more: []authboss.Mailer{defaults.NewLogMailer(w.sink), defaults.NewSMTPMailer(addr, nil)}}
 	ab.Config.Modules.BCryptCost = bcrypt.MinCost
 	ab.Config.Modules.MailNoGoroutine = false
 	ab.Config.Modules.LogoutMethod = "POST"
@@ -196,6 +321,7 @@ type raceResult struct {
 	Mismatches []string `json:"mismatches"`
 	Sample     []string `json:"sample"`
 	Steps      int      `json:"steps"`
+	Mails      int      `json:"mails"`
 }
 
 func init() {
@@ -227,8 +353,17 @@ func init() {
 					}(i)
 				}
 				wg.Wait()
-				time.Sleep(50 * time.Millisecond) // let the mail goroutines finish
+				time.Sleep(150 * time.Millisecond) // let the mail goroutines finish
 				res := raceResult{Run: run, Clients: *clients, Sample: conc[0]}
+				for _, x := range w.crosstalk() {
+					res.Mismatches = append(res.Mismatches, "mail cross-talk: "+x)
+				}
+				w.sink.mu.Lock()
+				res.Mails = len(w.sink.msgs)
+				w.sink.mu.Unlock()
+				if w.sink.ln != nil {
+					w.sink.ln.Close()
+				}
 				for i := 0; i < *clients; i++ {
 					res.Steps += len(conc[i])
 					a := strings.ReplaceAll(strings.Join(solo[i], "\n"), fmt.Sprintf("c%d@", i), "c@")
